@@ -73,7 +73,8 @@ def drive_bin(profile):
 # ---------------------------------------------------------------------------------------------
 def run_mc(name, tier):
     module, cfg, workers, tmo = PLAN.MC[name][tier]
-    key = spec_key()
+    deps = [os.path.join(SPEC, f) for f in PLAN.MC_DEPS.get(name, [])] + [os.path.join(SPEC, cfg + ".cfg")]
+    key = sha(deps) if PLAN.MC_DEPS.get(name) else spec_key()
     cdir = os.path.join(WORK, "mc", "%s-%s-%s" % (name, tier, key))
     res = os.path.join(cdir, "result.json")
     if os.path.exists(res):
@@ -134,7 +135,11 @@ def record_suite(suite, tier, seed, key):
         for c in range(0, nruns, chunk):
             p = os.path.join(cdir, "r%03d.ndjson" % c)
             sd = seed * 7919 + c * 104729 + (hash_name(suite) % 1000)
-            if mode == "tomb":
+            if mode == "diff":
+                pb = p.replace(".ndjson", ".rel.ndjson")
+                cmd = ["sh", "-c", "timeout 300 %s random --elem %s --seed %d --runs %d --events %d %s --out %s && timeout 300 %s run --elem %s --script %s --out %s"
+                       % (drive_bin("debug"), elem, sd, min(chunk, nruns - c), nev, " ".join(flags), p, drive_bin("release"), elem, p, pb)]
+            elif mode == "tomb":
                 cmd = ["timeout", "600", drive_bin(profile), "tomb", "--elem", elem, "--seed", str(sd), "--runs",
                        str(min(chunk, nruns - c))] + flags + ["--out", p]
             elif mode == "meta":
@@ -152,8 +157,14 @@ def record_suite(suite, tier, seed, key):
                     for p, cmd in jobs]
             for p, cmd, f in futs:
                 r = f.result()
-                out.append(dict(path=p, status=status_of(r.returncode), suite=suite, profile=profile, elem=elem,
-                                log=r.stdout[-2000:], cmd=" ".join(cmd)))
+                ent = dict(path=p, status=status_of(r.returncode), suite=suite, profile=profile, elem=elem,
+                           log=r.stdout[-2000:], cmd=" ".join(cmd))
+                if mode == "diff":
+                    pb = p.replace(".ndjson", ".rel.ndjson")
+                    ent["pair"] = pb
+                    out.append(dict(path=pb, status=status_of(r.returncode), suite=suite, profile="release", elem=elem,
+                                    log="", cmd="(release re-execution of %s)" % p))
+                out.append(ent)
     json.dump(out, open(idx, "w"), indent=1)
     return out
 
@@ -175,7 +186,7 @@ FAIL_RE = re.compile(r'^<<"MONITOR-FAIL", "([^"]*)", "([^"]*)", (\d+), "([^"]*)"
 STRICT_RE = re.compile(r'^<<"STRICT-FAIL", "([^"]*)", (\d+), "([^"]*)">>')
 
 
-def validate(spec, trace):
+def validate(spec, trace, trace2=None):
     """Runs TLC on one trace with one trace spec. Cached next to the trace."""
     cache = "%s.%s.%s.json" % (trace, spec, spec_key())
     if os.path.exists(cache):
@@ -184,7 +195,7 @@ def validate(spec, trace):
     t0 = time.time()
     cmd = ["timeout", "900", "tlc", "-workers", "1", "-metadir", meta, "-cleanup", "-noGenerateSpecTE",
            "-config", spec + ".cfg", spec + ".tla"]
-    r = subprocess.run(cmd, cwd=SPEC, env=dict(os.environ, TRACE=trace, JAVA_TOOL_OPTIONS=JAVA_TRACE),
+    r = subprocess.run(cmd, cwd=SPEC, env=dict(os.environ, TRACE=trace, TRACE2=trace2 or "", JAVA_TOOL_OPTIONS=JAVA_TRACE),
                        stdout=subprocess.PIPE, stderr=subprocess.STDOUT, text=True)
     shutil.rmtree(meta, ignore_errors=True)
     fails, strict = [], []
@@ -314,6 +325,8 @@ def run_check(pid, tier, seed, replay):
             if os.path.exists(t["path"]) and os.path.getsize(t["path"]) > 0:
                 jobs.append((t, "TraceRef", ex.submit(validate, "TraceRef", t["path"])))
                 jobs.append((t, "TraceCount", ex.submit(validate, "TraceCount", t["path"])))
+                if t.get("pair") and os.path.exists(t["pair"]):
+                    jobs.append((t, "TraceDiff", ex.submit(validate, "TraceDiff", t["path"], t["pair"])))
         results = [(t, sp, f.result()) for t, sp, f in jobs]
     known = load_known()
     nvalid = 0
@@ -325,7 +338,7 @@ def run_check(pid, tier, seed, replay):
         if r["tool_error"]:
             tool_err.append((t["path"], sp, r["tail"][-600:]))
             continue
-        if sp == "TraceRef":
+        if sp in ("TraceRef", "TraceDiff"):
             nvalid += 1
             for f in r["fails"]:
                 if pid in f["props"] or f["monitor"] in plan.get("monitors", []):
